@@ -231,6 +231,9 @@ pub struct Opts {
     /// after the first message, open this many further streams with minimal HEADERS frames (a busy multiplexed
     /// connection: a browser loading a page opens dozens to hundreds)
     pub extra_streams: usize,
+    /// this many empty frames of unknown types ahead of everything else after the preface (a peer, or a
+    /// middlebox test tool, may send any number of frames a receiver must ignore)
+    pub leading_frames: usize,
 }
 
 /// Encode the start of an HTTP/2 connection direction. Returns bytes + what was encoded.
@@ -292,6 +295,9 @@ pub fn connection_start(r: &mut Rng, o: &Opts) -> (Vec<u8>, Structure) {
         body[at..at + fake.len()].copy_from_slice(&fake);
         leading.push(frame(0, 0, 1, &body));
         st.has_oversized_frame = true;
+    }
+    for k in 0..o.leading_frames {
+        out.extend_from_slice(&frame(0x20 + (k % 7) as u8, 0, 0, &[]));
     }
     for f in &leading {
         out.extend_from_slice(f);
